@@ -42,6 +42,35 @@ func genFS() {
 			}
 			l.defStrList("stmts"+s.tag+"_"+name, stmts)
 		}
+		// round 2 (F17g, F17h): the helper that names the bases no node may be entered under, the methods that
+		// consult it before they enter a node into a directory, and Link's refusal of directories
+		{
+			var stmts []string
+			if fd := f.fn("isDotName"); fd == nil {
+				problem("%s: func isDotName not found", short)
+			} else {
+				for _, st := range fd.Body.List {
+					stmts = append(stmts, f.src(st))
+				}
+			}
+			l.defStrList("stmts"+s.tag+"_isDotName", stmts)
+			var guarded, refuses []string
+			for _, fn := range []string{"memFS.Mkdir", "memFS.MkdirAll", "memFS.openFile", "memFS.Mknod", "memFS.Symlink", "memFS.Link", "memFS.link", "memFS.writeHeader"} {
+				fd := f.fn(fn)
+				if fd == nil {
+					continue
+				}
+				body := f.src(fd.Body)
+				if strings.Contains(body, "isDotName(") {
+					guarded = append(guarded, fn[len("memFS."):])
+				}
+				if strings.Contains(body, "if target.dir {") && strings.Contains(body, "syscall.EPERM") {
+					refuses = append(refuses, fn[len("memFS."):])
+				}
+			}
+			l.defStrList("dotGuarded"+s.tag, guarded)
+			l.defStrList("linkRefusesDir"+s.tag, refuses)
+		}
 		for _, fn := range []string{"memFS.getNodeCountLinks", "memFS.getNode", "memFS.Mkdir", "memFS.MkdirAll", "memFS.openFile", "memFS.Symlink",
 			"memFS.Link", "memFS.link", "memFS.Readlink", "memFS.Mknod", "memFS.Readnod", "memFS.ReadDir", "memFS.Stat", "memFS.SetXattr",
 			"memFS.WriteHeader", "memFS.writeHeader", "memFS.Sub"} {
